@@ -29,7 +29,30 @@ Record world_case := {
   wc_supply : list (string * Z);
   wc_state : ostate;
   wc_ops : list op;
+  (* the interchain gas paymasters of the chain: (hook id, (account credited, denomination)) and, per
+     (hook id, destination domain), (gas overhead, gas price, token exchange rate); the gas the enrolled
+     routers use when the transfer names no gas limit *)
+  wc_igps : list (string * (string * string));
+  wc_igp_gas : list ((string * Z) * (Z * (Z * Z)));
+  wc_router_gas : Z;
 }.
+
+(* hyperlane-cosmos x/core/02_post_dispatch QuoteGasPayment (transcribed; validated by the correspondence) *)
+Definition gas_of (c : world_case) : gas_fn := fun hook domain gas =>
+  match hook with
+  | None => None                                  (* the mailbox's default hook: a no-op hook on this chain *)
+  | Some h =>
+      match lookup (wc_igps c) h with
+      | None => None
+      | Some (payee, gd) =>
+          match find (fun e => String.eqb (fst (fst e)) h && (snd (fst e) =? domain)) (wc_igp_gas c) with
+          | None => Some (payee, gd, 0)           (* remote domain not supported: refused, like a zero quote *)
+          | Some (_, (overhead, (price, rate))) =>
+              let g := if gas =? 0 then wc_router_gas c else gas in
+              Some (payee, gd, ((g + overhead) * price * rate) / 10000000000)
+          end
+      end
+  end.
 
 Definition cfg_of (c : world_case) : config :=
   {| cfg_orbiter := wc_orbiter c; cfg_orbiter_bech := wc_orbiter_bech c; cfg_dust := wc_dust c; cfg_warp := wc_warp c;
@@ -116,7 +139,7 @@ Definition v_out (c : world_case) (cfg : config) (w : world) (x : out) : val :=
 Fixpoint run_world_ops (c : world_case) (cfg : config) (e : env) (w : world) (ops : list op) : list val :=
   match ops with
   | [] => []
-  | o :: r => let '(w1, x) := step cfg e w o in v_out c cfg w1 x :: run_world_ops c cfg e w1 r
+  | o :: r => let '(w1, x) := step_gas (gas_of c) cfg e w o in v_out c cfg w1 x :: run_world_ops c cfg e w1 r
   end.
 
 Definition world0 (c : world_case) : world :=
